@@ -130,6 +130,7 @@ PROPS["C08"] = {
         {"name": "c08_noninterference_rp", "fn": "c08_noninterference", "params": {"quick": {"arglen": 8, "rp": 1}}, "budget_s": {"quick": 900, "thorough": 3600}, "thorough_only": True},
         {"name": "c08_token_not_removable"},
         {"name": "c08_via_secondary", "covers": ["secure-cluster.on-secondary"]},
+        {"name": "c08_control_characters"},
     ],
     "bounds": {"quick": "self-composition: two servers identical except for the contents of $$ keys ($$s = '7' vs 'x y', another user's token and permission list); one command = any word of the parser table except the login words x 0..3 symbolic space-free tokens of <= 8 chars (long enough to spell $$token / $$user_o) from a database-token session and from a user-token session holding 'rwix *'; reply, every line on the client channel, the $$ keys of both servers, and notifications after an administrator rewrites the secret are compared",
                "thorough": "same, also with every command wrapped in 'rp <id>'"},
